@@ -761,6 +761,47 @@ def r5(k: Kit) -> None:
                       k.loc(f, nd))
 
 
+def r4_cert_kind(k: Kit) -> None:
+    """A known_hosts line that holds an OpenSSH certificate blob."""
+    rep = k.rep
+    fi = k.func('known_hosts.SSHKnownHosts.load')
+    g = k.cfg(fi)
+    sites = k.calls_named(fi, 'import_certificate')
+    rep.floor('C17.R4', 'certificate import sites in load', len(sites), 1)
+    entries = [n for n in g.nodes if n.kind == 'stmt' and
+               isinstance(n.ast, ast.Assign) and
+               dotted(n.ast.targets[0]) == 'entry']
+    rep.floor('C17.R4', 'entry construction sites', len(entries), 1)
+    for nd, c in sites:
+        st = nd.ast
+        var = dotted(st.targets[0]) if isinstance(st, ast.Assign) else None
+
+        def val(x, var=var):
+            a = x.ast
+            if x.kind == 'atom' and dotted(a) == f'{var}.is_x509':
+                return True
+            return None
+        for e in entries:
+            # every path import -> entry passes the is_x509 True edge
+            w = None
+            for b, lab in g.succ[nd.id]:
+                if lab != 'exc':        # the import succeeded
+                    w = w or (None if val(g.nodes[b]) is not None else
+                              g.guarded_by(e.id, val, start=b))
+            if not var:
+                w = [0]
+            rep.check(w is None, 'C17.R4',
+                      key(fi, 'only X.509 certificates become entries'),
+                      'an imported certificate is stored only if it is an '
+                      'X.509 certificate',
+                      'a known_hosts line holding an OpenSSH certificate '
+                      'blob becomes an entry: match_known_hosts then raises '
+                      'ValueError("OpenSSH certificates not allowed in known '
+                      'hosts") for every lookup that matches the line, so '
+                      'the other (valid) lines for that host are lost',
+                      k.loc(fi, nd), g.describe_path(w) if w else None)
+
+
 def run(idx, rep, tier):
     k = Kit(idx, rep)
     rep.assumptions += NOT_DECIDED
@@ -771,4 +812,5 @@ def run(idx, rep, tier):
     r3(k)
     r3_accumulate(k)
     r4(k)
+    r4_cert_kind(k)
     r5(k)
